@@ -235,7 +235,7 @@ func (r *renderer) module() string {
 	}
 	r.body(1, m.Body)
 	for _, a := range m.Augments {
-		r.line(1, "augment %s {", q(r.path(a.Target)))
+		r.line(1, "augment %s {", q(r.pathBare(a.Target, a.Bare)))
 		if a.When != "" {
 			r.line(2, "when %s;", q(a.When))
 		}
@@ -277,11 +277,19 @@ func PathString(s *Scenario, m *Mod, steps []Step) string {
 	return r.path(steps)
 }
 
-func (r *renderer) path(steps []Step) string {
+func (r *renderer) path(steps []Step) string { return r.pathBare(steps, false) }
+
+// pathBare renders a path; with bare, steps in the current module's namespace
+// are written without a prefix.
+func (r *renderer) pathBare(steps []Step, bare bool) string {
 	var sb strings.Builder
 	for _, st := range steps {
 		p := r.prefixFor(st.Mod)
 		if p == "" {
+			if bare {
+				sb.WriteString("/" + st.Name)
+				continue
+			}
 			p = r.m.Prefix
 		}
 		sb.WriteString("/" + p + ":" + st.Name)
